@@ -2,6 +2,7 @@
 from ..paths import PathEnumerator
 from ..guards import fv
 from ..terms import TermBuilder, fmt, mk, const, subterms
+from ..terms import callee_is as _nm
 from ..guards import panic_sites
 from .common import SELF, self_field, config_fields
 
@@ -86,7 +87,7 @@ def run(ctx):
             from .common import full_reservoir_facts
             fd_full = {repr(c_): t_ for c_, t_ in full_reservoir_facts(facts)}
             in_range = fv(fd, mk("Lt", idx, k_f)) is True or fv(fd_full, mk("Lt", idx, k_f)) is True
-            if idx[0] == "call" and idx[1].endswith("gen_range") and len(idx[2]) >= 2:
+            if idx[0] == "call" and _nm(idx[1], "gen_range") and len(idx[2]) >= 2:
                 r = idx[2][1]
                 if r[0] == "adt" and r[1] == "std::ops::Range":
                     d = dict(r[3])
@@ -147,7 +148,7 @@ def run(ctx):
                     # a float draw that feeds ln(1 - x) must exclude 1.0 (ln 0 = -inf saturates the gap and `i + g` overflows)
                     if isinstance(e[1], float) and r[1] != "std::ops::Range":
                         okr = False
-            elif r[0] == "call" and r[1].endswith("RangeInclusive::new") and r[2][0] == const(0) and not isinstance(r[2][0][1], float) and r[2][1] in (i_f, k_f):
+            elif r[0] == "call" and _nm(r[1], "RangeInclusive::new") and r[2][0] == const(0) and not isinstance(r[2][0][1], float) and r[2][1] in (i_f, k_f):
                 okr = True
             ctx.check(okr, "R18-no-panic", "%s:gen_range(%s)" % (add.key, fmt(r)), t.span, "range %s is non-empty (k >= 1, i >= k on this path)" % fmt(r),
                       "gen_range over %s may be empty" % fmt(r))
@@ -167,7 +168,7 @@ def run(ctx):
                 d_ = dict(r_[3])
                 if d_.get("start") == const(0.0) and d_.get("end") == const(1.0):
                     return (True, r_[1] != "std::ops::Range")
-            if r_[0] == "call" and r_[1].endswith("RangeInclusive::new") and r_[2][0] == const(0.0) and r_[2][1] == const(1.0):
+            if r_[0] == "call" and _nm(r_[1], "RangeInclusive::new") and r_[2][0] == const(0.0) and r_[2][1] == const(1.0):
                 return (True, True)
             return None
         if nm_ == "sample" and len(x[2]) >= 2 and x[2][1][0] == "adt":
